@@ -157,7 +157,7 @@ package newick
 //@   ensures special ==> len(result) == len(dq(s)) + 2 && forall k int :: 0 <= k && k < len(dq(s)) ==> result[1 + k] == dq(s)[k]
 
 //@ func quoted
-//@   props C05
+//@   props C05 C11
 //@   ensures result <==> (len(s) >= 2 && s[0] == 39 && s[len(s) - 1] == 39)
 
 //@ func nameFromText
